@@ -228,7 +228,7 @@ Next ==
         \/ Attached /\ K \in {"raw", "node", "map"} /\
            \E op \in {"append", "insert", "setitem", "setslice", "extend", "mset"} \cap Ops :
            \E k \in 1..(IF op \in {"setslice", "extend"} THEN MaxBatch ELSE 1) : \E j \in 1..k :
-           \E src \in {"same", "other"} : \E i \in {0, -1, 1} :
+           \E src \in {"same", "other", "otherdup"} : \E i \in {0, -1, 1} :
               \* a donor from this very list must lie outside the replaced range (first item, target = last)
               /\ (src = "same" => n > 0)
               /\ (src = "same" /\ op \in {"setitem", "setslice"} => n >= 2 /\ i = -1)
